@@ -676,8 +676,8 @@ Proof. unfold dm_name_src. destruct (dm_name m); reflexivity. Qed.
 
 Lemma decl_frame_indep typ (xcid xmac : src) ip :
   src_ok xcid = true -> src_ok xmac = true ->
-  show_decl cx1 typ (retain RP_decline_cid cx1 xcid) (retain RP_decline_mac cx1 xmac) (retain RP_decline_xid cx1 (FrameSl 46 4)) ip =
-  show_decl cx2 typ (retain RP_decline_cid cx2 xcid) (retain RP_decline_mac cx2 xmac) (retain RP_decline_xid cx2 (FrameSl 46 4)) ip.
+  show_decl cx1 typ (retain RP_decline_cid cx1 xcid) (retain RP_decline_mac cx1 xmac) (retain RP_decline_xid cx1 (fsl L_DHCP_XID)) ip =
+  show_decl cx2 typ (retain RP_decline_cid cx2 xcid) (retain RP_decline_mac cx2 xmac) (retain RP_decline_xid cx2 (fsl L_DHCP_XID)) ip.
 Proof.
   intros Hc Hm. rewrite !(retain_indep _ cx1 cx2) by auto. apply show_decl_indep; apply retain_owned.
 Qed.
@@ -694,15 +694,15 @@ Proof.
     by (destruct (dm_reqip m); auto using lval_indep).
   rewrite Hreq. clear Hreq.
   destruct (dm_name_entry_ok m) as [En On]. rewrite En in *.
-  destruct (lease_find_or_create_ok (dm_cid_src m) (FrameSl 70 6) (dm_name_src m) st H Hc eq_refl Hn) as [E1 N1].
+  destruct (lease_find_or_create_ok (dm_cid_src m) (fsl L_DHCP_CHADDR) (dm_name_src m) st H Hc eq_refl Hn) as [E1 N1].
   rewrite E1 in *.
-  set (st1 := lease_find_or_create cx2 (dm_cid_src m) (FrameSl 70 6) (dm_name_src m) st) in *.
+  set (st1 := lease_find_or_create cx2 (dm_cid_src m) (fsl L_DHCP_CHADDR) (dm_name_src m) st) in *.
   set (key := src_val cx2 (dm_cid_src m)).
   set (reqip := match dm_reqip m with Some l => lval cx2 l | None => [] end).
   destruct (dm_type m =? 1).
   { (* discover *)
     destruct (dm_res m =? 2).
-    - rewrite (retain_indep _ cx1 cx2 (FrameSl 46 4)) by auto.
+    - rewrite (retain_indep _ cx1 cx2 (fsl L_DHCP_XID)) by auto.
       set (st2 := upd_lease key _ st1).
       assert (N2 : no_ref st2 = true).
       { apply upd_lease_no_ref; auto. intros l Hl. pose proof Hl as Hl2. unfold lease_ok in Hl2. split_ok.
@@ -737,7 +737,7 @@ Proof.
       rewrite show_reply_indep. split; auto. f_equal. f_equal.
       destruct (dm_cls m =? 3); auto. f_equal. apply decl_frame_indep; auto. }
   destruct ((dm_type m =? 4) || (dm_type m =? 7)).
-  { destruct (lease_find_or_create_ok (dm_cid_src m) (FrameSl 70 6) (Fresh []) st H Hc eq_refl eq_refl) as [E5 N5].
+  { destruct (lease_find_or_create_ok (dm_cid_src m) (fsl L_DHCP_CHADDR) (Fresh []) st H Hc eq_refl eq_refl) as [E5 N5].
     rewrite E5 in *. split; [reflexivity|exact N5]. }
   destruct (dm_type m =? 2); auto.
   split; auto. f_equal. f_equal. apply decl_frame_indep; auto.
@@ -771,7 +771,7 @@ Lemma ra_mk_ok m old :
 Proof.
   intros Ho. pose proof (ra_xmac_ok m) as Hx. split.
   - unfold ra_mk. rewrite E.
-    rewrite !(retain_indep _ cx1 cx2 (FrameSl 22 16)), !(retain_indep _ cx1 cx2 (ra_xmac m)) by auto.
+    rewrite !(retain_indep _ cx1 cx2 (fsl L_IP6_SRC)), !(retain_indep _ cx1 cx2 (ra_xmac m)) by auto.
     f_equal;
       try (apply map_ext; intros p; cbv beta; rewrite ?(join_labels_indep cx1 cx2 _ E); apply retain_indep; auto; fail);
       try (destruct (ra_slla m); auto; apply retain_indep; auto; fail);
@@ -793,8 +793,8 @@ Proof.
   intros H. unfold ra_step. destruct fhost as [k|]; auto. cbv zeta. rewrite E.
   assert (Hr : forallb router_ok (st_routers st) = true) by (nr_destruct H; auto).
   destruct (find _ (st_routers st)) as [r|].
-  - assert (Em : map (fun r' => if beqb (r_key r') (sub (cx_frame cx2) 22 16) then ra_mk cx1 m (Some r') else r') (st_routers st) =
-                 map (fun r' => if beqb (r_key r') (sub (cx_frame cx2) 22 16) then ra_mk cx2 m (Some r') else r') (st_routers st)).
+  - assert (Em : map (fun r' => if beqb (r_key r') (fsub (cx_frame cx2) L_IP6_SRC) then ra_mk cx1 m (Some r') else r') (st_routers st) =
+                 map (fun r' => if beqb (r_key r') (fsub (cx_frame cx2) L_IP6_SRC) then ra_mk cx2 m (Some r') else r') (st_routers st)).
     { apply map_ext_forallb with (p := router_ok); auto. intros r' Hr'. destruct (beqb _ _); auto.
       destruct (ra_mk_ok m (Some r') Hr'); auto. }
     rewrite Em. split; auto. apply set_routers_no_ref; auto.
@@ -990,20 +990,20 @@ Proof.
     - destruct (mdns_step_ok cx1 cx2 E NM_LLMNR m fhost st1 Np) as [E1 N1]. rewrite E1 in *. auto.
     - destruct (nbns_step_ok cx1 cx2 E l fhost st1 Np) as [E1 N1]. rewrite E1 in *. auto.
     - destruct (ssdp_step_ok cx1 cx2 a b o fhost st1 Np) as [E1 N1]. rewrite E1 in *. auto.
-    - destruct (capture_ok cx1 cx2 E (FrameSl 6 6) st1 Np eq_refl) as [E1 N1]. rewrite E1 in *. auto.
-    - destruct (release_ok cx1 cx2 (sub frame 6 6) st1 Np) as [E1 N1]. rewrite E1 in *. auto.
+    - destruct (capture_ok cx1 cx2 E (fsl L_ETH_SRC) st1 Np eq_refl) as [E1 N1]. rewrite E1 in *. auto.
+    - destruct (release_ok cx1 cx2 (fsub frame L_ETH_SRC) st1 Np) as [E1 N1]. rewrite E1 in *. auto.
     - destruct (Oapi name) as [Ea Oa]. rewrite Ea, (lval_indep cx1 cx2 ip E).
-      destruct (dhcpv4_update_ok cx1 cx2 E (FrameSl 6 6) (lval cx2 ip) (api_name cx2 name) st1 Np eq_refl Oa) as [E1 N1].
+      destruct (dhcpv4_update_ok cx1 cx2 E (fsl L_ETH_SRC) (lval cx2 ip) (api_name cx2 name) st1 Np eq_refl Oa) as [E1 N1].
       rewrite E1 in *. auto.
     - destruct (Oapi name) as [Ea Oa]. rewrite Ea, (lval_indep cx1 cx2 ip E).
-      destruct (set_dhcpv4_offer_ok cx1 cx2 E (FrameSl 6 6) (lval cx2 ip) (api_name cx2 name) st1 Np eq_refl Oa) as [E1 N1].
+      destruct (set_dhcpv4_offer_ok cx1 cx2 E (fsl L_ETH_SRC) (lval cx2 ip) (api_name cx2 name) st1 Np eq_refl Oa) as [E1 N1].
       rewrite E1 in *. auto. }
   destruct Hh as [Eh Nh]. rewrite Eh in *. clearbody h2. clear h1 Eh.
   destruct h2 as [st2 outs]. cbn [fst] in Nh.
   (* notify *)
   assert (Hn : forall key tr, notify_host cx1 key tr st2 = notify_host cx2 key tr st2 /\ no_ref (fst (notify_host cx1 key tr st2)) = true)
     by (intros; apply notify_host_ok; auto).
-  assert (Hm : find_mac cx1 (sub frame 6 6) (st_macs st2) = find_mac cx2 (sub frame 6 6) (st_macs st2))
+  assert (Hm : find_mac cx1 (fsub frame L_ETH_SRC) (st_macs st2) = find_mac cx2 (fsub frame L_ETH_SRC) (st_macs st2))
     by (apply find_mac_indep; apply nr_macs; auto).
   destruct fhost as [key|].
   - destruct (Hn key trans) as [E1 N1]. rewrite E1 in *. destruct (notify_host cx2 key trans st2). auto.
